@@ -146,6 +146,8 @@ def key_templates(kls, lcps, base=0x40, special=None, all_concrete=()):
             conc[i][L] = True
         else:
             assert kls[i] > L, "equal keys"
+    for (i, j) in (special or {}):
+        conc[i][j] = True
     # entries that are added twice are compared with themselves: every byte concrete
     for i in all_concrete:
         for j in range(kls[i]):
